@@ -580,32 +580,100 @@ theorem gen_bounds_test :
   intro pt a b
   rfl
 
-/-- `_line_segment_xsection` intersects the carrying line `(a, b − a)` and returns `None` when that is not `None` and
-    the bounds test holds; the public wrappers only flatten their arguments (the model's `lineSegmentXsection`). -/
+/-- [semantic + text] `_line_segment_xsection` intersects the carrying line `(a, b − a)` and returns `None` when that is not
+    `None` and the bounds test holds.  Semantic: the model's `lineSegmentXsection` calls `lineXsection` with the start point
+    `a` and the ray `ca·a + cb·b + d` made of the generated coefficients.  Text only: `PT is not None` / `None` (the
+    `Option` match of the model) and the public wrappers, which only flatten their arguments (`np.asarray(..).ravel()`:
+    array plumbing, no counterpart in the model). -/
 theorem gen_segment_xsection :
-    PW.Gen.Xsect.segmentLineSrc = "self._line_xsection(a, -a + b)" ∧
-    PW.Gen.Xsect.segmentNoneCheckSrc = "PT is not None" ∧ PW.Gen.Xsect.boundsRejectResult = "None" ∧
-    PW.Gen.Xsect.lineWrapperSrc = "self._line_xsection(np.asarray(pt).ravel(), np.asarray(ray).ravel())" ∧
-    PW.Gen.Xsect.segmentWrapperSrc = "self._line_segment_xsection(np.asarray(a).ravel(), np.asarray(b).ravel())" :=
-  ⟨rfl, rfl, rfl, rfl, rfl⟩
+    (PW.Gen.Xsect.segmentLineSrc = "self._line_xsection(a, -a + b)" ∧
+      PW.Gen.Xsect.segmentNoneCheckSrc = "PT is not None" ∧ PW.Gen.Xsect.boundsRejectResult = "None" ∧
+      PW.Gen.Xsect.lineWrapperSrc = "self._line_xsection(np.asarray(pt).ravel(), np.asarray(ray).ravel())" ∧
+      PW.Gen.Xsect.segmentWrapperSrc = "self._line_segment_xsection(np.asarray(a).ravel(), np.asarray(b).ravel())" ∧
+      PW.Gen.Xsect.segmentStart = "a") ∧
+    (PW.Gen.Xsect.segmentRayACoef = -1 ∧ PW.Gen.Xsect.segmentRayBCoef = 1 ∧ PW.Gen.Xsect.segmentRayConst = 0) ∧
+    ∀ (pl : Plane K) (a b : V3 K), pl.lineSegmentXsection a b =
+      match pl.lineXsection a
+        (V3.smul ((PW.Gen.Xsect.segmentRayACoef : Int) : K) a + V3.smul ((PW.Gen.Xsect.segmentRayBCoef : Int) : K) b +
+          (⟨((PW.Gen.Xsect.segmentRayConst : Int) : K), ((PW.Gen.Xsect.segmentRayConst : Int) : K),
+            ((PW.Gen.Xsect.segmentRayConst : Int) : K)⟩ : V3 K)) with
+      | none => none
+      | some pt => if outOfBounds pt a b then none else some pt := by
+  refine ⟨⟨rfl, rfl, rfl, rfl, rfl, rfl⟩, by decide, ?_⟩
+  intro pl a b
+  have h : V3.smul ((PW.Gen.Xsect.segmentRayACoef : Int) : K) a + V3.smul ((PW.Gen.Xsect.segmentRayBCoef : Int) : K) b +
+      (⟨((PW.Gen.Xsect.segmentRayConst : Int) : K), ((PW.Gen.Xsect.segmentRayConst : Int) : K),
+        ((PW.Gen.Xsect.segmentRayConst : Int) : K)⟩ : V3 K) = b - a := by
+    ext <;> simp [PW.Gen.Xsect.segmentRayACoef, PW.Gen.Xsect.segmentRayBCoef, PW.Gen.Xsect.segmentRayConst,
+      V3.add_x, V3.add_y, V3.add_z, V3.smul_x, V3.smul_y, V3.smul_z, V3.sub_x, V3.sub_y, V3.sub_z] <;> ring
+  rw [h]
+  rfl
 
-/-- the stacked routines: `denoms == 0` rows get a NaN denominator and the flag `False`; the segment form applies the
-    same bounds test row-wise and stores NaN rows (the model's `lineXsections`, `lineSegmentXsections`: `List.zipWith`
-    of the single forms). -/
+/-- [semantic + text] the stacked routines.  Semantic: `line_xsections` gives `none` (NaN row, flag `False`) for a row
+    exactly when `denoms == 0` with the generated operator and bound, and `line_segment_xsections` calls it with start
+    `a` and ray `ca·a + cb·b + d` and rejects a row by the row-wise bounds test made of the four generated comparisons
+    (the model's `lineXsections`, `lineSegmentXsections`).  Text only: `stackMaskOk`, `stackPointSrc`, `segmentStackSrc` —
+    the NaN / flag bookkeeping (`denoms[mask] = nan`, `pt_is_valid[pt_is_valid] = …`, `np.vstack([p, p, p]).T`) is array
+    plumbing that the model expresses as `Option` rows. -/
 theorem gen_stacked_xsections :
+    (PW.Gen.Xsect.stackDenomSrc = "np.dot(rays, self.normal)" ∧ PW.Gen.Xsect.stackMaskOk = some true ∧
+      PW.Gen.Xsect.stackPointSrc =
+        "np.vstack([np.dot(-pts + self.reference_point, self.normal) / MASKED, np.dot(-pts + self.reference_point, self.normal) / MASKED, np.dot(-pts + self.reference_point, self.normal) / MASKED]).T * rays + pts" ∧
+      PW.Gen.Xsect.segmentStackSrc =
+        "(_set(PTS, _0[~_set(VALID, _0[VALID], ~(np.any(PTS[VALID] < a[VALID] and PTS[VALID] < b[VALID], axis=1) or np.any(a[VALID] < PTS[VALID] and b[VALID] < PTS[VALID], axis=1)))], np.nan), _set(VALID, _0[VALID], ~(np.any(PTS[VALID] < a[VALID] and PTS[VALID] < b[VALID], axis=1) or np.any(a[VALID] < PTS[VALID] and b[VALID] < PTS[VALID], axis=1))))" ∧
+      PW.Gen.Xsect.stackSegmentStart = "a") ∧
     (PW.Gen.Xsect.stackParallelCmp = .eq ∧ PW.Gen.Xsect.stackParallelRhs = 0 ∧
-      PW.Gen.Xsect.stackDenomSrc = "np.dot(rays, self.normal)" ∧ PW.Gen.Xsect.stackMaskOk = true) ∧
-    PW.Gen.Xsect.stackPointSrc =
-      "np.vstack([np.dot(-pts + self.reference_point, self.normal) / MASKED, np.dot(-pts + self.reference_point, self.normal) / MASKED, np.dot(-pts + self.reference_point, self.normal) / MASKED]).T * rays + pts" ∧
-    PW.Gen.Xsect.segmentStackSrc =
-      "(_set(PTS, _0[~_set(VALID, _0[VALID], ~(np.any(PTS[VALID] < a[VALID] and PTS[VALID] < b[VALID], axis=1) or np.any(a[VALID] < PTS[VALID] and b[VALID] < PTS[VALID], axis=1)))], np.nan), _set(VALID, _0[VALID], ~(np.any(PTS[VALID] < a[VALID] and PTS[VALID] < b[VALID], axis=1) or np.any(a[VALID] < PTS[VALID] and b[VALID] < PTS[VALID], axis=1))))" :=
-  ⟨⟨by decide, by decide, rfl, by decide⟩, rfl, rfl⟩
+      PW.Gen.Xsect.stackAboveACmp = .lt ∧ PW.Gen.Xsect.stackAboveBCmp = .lt ∧ PW.Gen.Xsect.stackBelowACmp = .lt ∧
+      PW.Gen.Xsect.stackBelowBCmp = .lt ∧ PW.Gen.Xsect.stackSegmentRayACoef = -1 ∧
+      PW.Gen.Xsect.stackSegmentRayBCoef = 1 ∧ PW.Gen.Xsect.stackSegmentRayConst = 0) ∧
+    (∀ (pl : Plane K) (pts rays : List (V3 K)), pl.lineXsections pts rays =
+      (do sameLength pts rays
+          pure (List.zipWith (fun pt ray =>
+            if PW.Gen.Xsect.stackParallelCmp.test (ray.dot pl.n) ((PW.Gen.Xsect.stackParallelRhs : Int) : K) then none
+            else some (V3.smul ((pl.ref - pt).dot pl.n / ray.dot pl.n) ray + pt)) pts rays))) ∧
+    (∀ (pl : Plane K) (as bs : List (V3 K)), pl.lineSegmentXsections as bs =
+      (do sameLength as bs
+          pure (List.zipWith (fun a b =>
+            match pl.lineXsection a
+              (V3.smul ((PW.Gen.Xsect.stackSegmentRayACoef : Int) : K) a +
+                V3.smul ((PW.Gen.Xsect.stackSegmentRayBCoef : Int) : K) b +
+                (⟨((PW.Gen.Xsect.stackSegmentRayConst : Int) : K), ((PW.Gen.Xsect.stackSegmentRayConst : Int) : K),
+                  ((PW.Gen.Xsect.stackSegmentRayConst : Int) : K)⟩ : V3 K)) with
+            | none => none
+            | some pt =>
+              if (((PW.Gen.Xsect.stackAboveACmp.test a.x pt.x && PW.Gen.Xsect.stackAboveBCmp.test b.x pt.x) ||
+                   (PW.Gen.Xsect.stackAboveACmp.test a.y pt.y && PW.Gen.Xsect.stackAboveBCmp.test b.y pt.y) ||
+                   (PW.Gen.Xsect.stackAboveACmp.test a.z pt.z && PW.Gen.Xsect.stackAboveBCmp.test b.z pt.z)) ||
+                  ((PW.Gen.Xsect.stackBelowACmp.test pt.x a.x && PW.Gen.Xsect.stackBelowBCmp.test pt.x b.x) ||
+                   (PW.Gen.Xsect.stackBelowACmp.test pt.y a.y && PW.Gen.Xsect.stackBelowBCmp.test pt.y b.y) ||
+                   (PW.Gen.Xsect.stackBelowACmp.test pt.z a.z && PW.Gen.Xsect.stackBelowBCmp.test pt.z b.z)))
+              then none else some pt) as bs))) := by
+  refine ⟨⟨rfl, by decide, rfl, rfl, rfl⟩, by decide, ?_, ?_⟩
+  · intro pl pts rays
+    have h : (fun pt ray : V3 K =>
+        if PW.Gen.Xsect.stackParallelCmp.test (ray.dot pl.n) ((PW.Gen.Xsect.stackParallelRhs : Int) : K) then none
+        else some (V3.smul ((pl.ref - pt).dot pl.n / ray.dot pl.n) ray + pt)) = pl.lineXsection := by
+      funext pt ray
+      simp [lineXsection, PW.Gen.Cmp.test, PW.Gen.Xsect.stackParallelCmp, PW.Gen.Xsect.stackParallelRhs]
+    rw [h]
+    rfl
+  · intro pl as bs
+    have hr : ∀ a b : V3 K, V3.smul ((PW.Gen.Xsect.stackSegmentRayACoef : Int) : K) a +
+        V3.smul ((PW.Gen.Xsect.stackSegmentRayBCoef : Int) : K) b +
+        (⟨((PW.Gen.Xsect.stackSegmentRayConst : Int) : K), ((PW.Gen.Xsect.stackSegmentRayConst : Int) : K),
+          ((PW.Gen.Xsect.stackSegmentRayConst : Int) : K)⟩ : V3 K) = b - a := by
+      intro a b
+      ext <;> simp [PW.Gen.Xsect.stackSegmentRayACoef, PW.Gen.Xsect.stackSegmentRayBCoef,
+        PW.Gen.Xsect.stackSegmentRayConst, V3.add_x, V3.add_y, V3.add_z, V3.smul_x, V3.smul_y, V3.smul_z, V3.sub_x,
+        V3.sub_y, V3.sub_z] <;> ring
+    simp only [hr]
+    rfl
 
 /-- `intersect_segment_with_plane`: `T = nan_to_num(dot(q − start, n) / dot(vec, n))`, row `start + T * vec`, set to NaN
     when `T < 0` or `T > 1`: the model's `segmentRow` tests exactly the generated comparisons and bounds. -/
 theorem gen_segment_nan_rules :
     (PW.Gen.Xsect.nanLowCmp = .lt ∧ PW.Gen.Xsect.nanLowRhs = 0 ∧ PW.Gen.Xsect.nanHighCmp = .gt ∧
-      PW.Gen.Xsect.nanHighRhs = 1 ∧ PW.Gen.Xsect.nanRulesOk = true) ∧
+      PW.Gen.Xsect.nanHighRhs = 1 ∧ PW.Gen.Xsect.nanRulesOk = some true) ∧
     PW.Gen.Xsect.paramSrc =
       "np.nan_to_num(vg.dot(points_on_plane - start_points, plane_normals) / vg.dot(segment_vectors, plane_normals))" ∧
     PW.Gen.Xsect.pointSrc = "T.reshape(-1, 1) * segment_vectors + start_points" ∧
@@ -626,8 +694,8 @@ theorem gen_intersect_plane :
       PW.Gen.Xsect.selectLhs = "np.abs(np.sign(SD)[self.e].sum(axis=1))" ∧ PW.Gen.Xsect.selectRhs = 2 ∧
       PW.Gen.Xsect.endpointDistSrc = "np.abs(SD[self.e[WHICH]])" ∧
       PW.Gen.Xsect.tSrc = "ED / ED.sum(axis=1)[:, np.newaxis]" ∧
-      PW.Gen.Xsect.weightCoef = -1 ∧ PW.Gen.Xsect.weightConst = 1 ∧ PW.Gen.Xsect.weightsOnSelected = true ∧
-      PW.Gen.Xsect.samePoints = true) ∧
+      PW.Gen.Xsect.weightCoef = -1 ∧ PW.Gen.Xsect.weightConst = 1 ∧ PW.Gen.Xsect.weightsOnSelected = some true ∧
+      PW.Gen.Xsect.samePoints = some true) ∧
     PW.Gen.Xsect.pointsSrc = "((-T[:, :, np.newaxis] + 1) * self.segments[WHICH]).sum(axis=1)" ∧
     (∀ da db : K, edgeSelected da db =
       PW.Gen.Xsect.selectCmp.test (Plane.sgn da + Plane.sgn db).natAbs PW.Gen.Xsect.selectRhs.toNat) ∧
@@ -650,5 +718,20 @@ theorem gen_intersect_plane :
       ring
     simp only [h]
     rfl
+
+/-- [text] what the symbolic reader does not interpret, pinned to the source the model was written from: for every
+    function read by `harness/translate/c14.py` its decorators, its parameter list with defaults, the statements whose
+    effect is not modelled (shape checks — any added in-place call, loop, `with`, `try`, `del`, … shows up here), and
+    the number of other bindings of its name in the enclosing scope. -/
+theorem gen_function_shapes :
+    PW.Gen.Xsect.functionShapes =
+      [("Plane._line_xsection", [], "self, pt, ray", [], 0),
+       ("Plane._line_segment_xsection", [], "self, a, b", [], 0),
+       ("Plane.line_xsection", [], "self, pt, ray", ["expr vg.shape.check(locals(), 'pt', (3,))", "expr vg.shape.check(locals(), 'ray', (3,))"], 0),
+       ("Plane.line_segment_xsection", [], "self, a, b", ["expr vg.shape.check(locals(), 'a', (3,))", "expr vg.shape.check(locals(), 'b', (3,))"], 0),
+       ("Plane.line_xsections", [], "self, pts, rays", ["expr vg.shape.check(locals(), 'rays', (vg.shape.check(locals(), 'pts', (-1, 3)), 3))"], 0),
+       ("Plane.line_segment_xsections", [], "self, a, b", ["expr vg.shape.check(locals(), 'b', (vg.shape.check(locals(), 'a', (-1, 3)), 3))"], 0),
+       ("intersect_segment_with_plane", [], "start_points, segment_vectors, points_on_plane, plane_normals", ["expr vg.shape.check(locals(), 'segment_vectors', start_points.shape)", "expr vg.shape.check(locals(), 'points_on_plane', start_points.shape)", "expr vg.shape.check(locals(), 'plane_normals', start_points.shape)"], 0),
+       ("Polyline.intersect_plane", [], "self, plane, ret_edge_indices=False", [], 0)] := by rfl
 
 end PW.C14
